@@ -354,7 +354,7 @@ pub fn main(a: &Args) {
         println!("{}", c.json);
         return;
     }
-    let n: u64 = if a.thorough() { 25000 } else { 800 };
+    let n: u64 = if a.thorough() { 15000 } else { 800 };
     let mut g = String::new();
     let mut j = String::new();
     // corpus first: the witness of F8 (crafted variant 0), saved elsewhere
